@@ -79,6 +79,13 @@ def work(ctx, tier):
     n = (5000 if tier == "quick" else 150000) // ctx.nshards
     for k in range(n):
         sc = gen.rand_scenario(rng, p_special=0.02, p_budget=0.2, p_handler=0.2, p_abort=0.1, ncalls=(1, 2), p_no_sleeper=0.3, p_strategy_objects=0.4, rf_time=True, p_via_config=0.3, p_via_attrs=0.25, p_attempt_timeout=0.15)
+        if k % 6 == 4:
+            # the abort predicate's first evaluation - before attempt 1 - takes time: the envelope is measured from the start of the call
+            sc["poll"] = True
+            D = sc["cfg"]["deadline_s"]
+            for c in sc["calls"]:
+                c["preflight_poll_dur"] = rng.choice([0.25, 0.5, 1.0, D / 2.0 if D < 100 else 0.5])
+            ctx.inc("scenarios_with_a_slow_preflight_poll")
         for e in common.pick_entries(rng, rig.ENTRIES, 2):
             _one(ctx, sc, e, stats, rng)
         ctx.inc("random_scenarios")
